@@ -24,6 +24,7 @@ import Drivers.Unit
 import Drivers.Kexact
 import Drivers.SmoothInterp
 import Drivers.Rcb
+import Drivers.Ugrid
 
 /-! `refdrv <driver> [args]` : dispatch to a line-protocol driver. One match arm per driver, on one line. -/
 
@@ -53,6 +54,7 @@ def main (args : List String) : IO UInt32 := do
   | "kexact" :: rest => Drivers.Kexact.run rest
   | "smoothinterp" :: rest => Drivers.SmoothInterp.run rest
   | "rcb" :: rest => Drivers.Rcb.run rest
+  | "ugrid" :: rest => Drivers.Ugrid.run rest
   | _ =>
     IO.eprintln s!"refdrv: unknown driver {args}"
     return 2
